@@ -14,7 +14,7 @@ def main():
     from vmc import vsat, refmodel
 
     n_formulas = 0
-    for nv, maxc in ((3, 3), (2, 4)):
+    for nv, maxc in ((3, 3), (2, 4), (4, 2)):
         lits = [l for v in range(1, nv + 1) for l in (v, -v)]
         clauses = []
         for w in (1, 2, 3):
@@ -38,6 +38,17 @@ def main():
                     cnt = sum(1 for _ in vsat.iter_models(f, nv))
                     if cnt != len(bm):
                         print('vsat self-test FAILED (enumeration)', f, cnt, len(bm))
+                        return 1
+                # incremental projected enumeration on every projection set
+                for pr in ([1], [1, 2], list(range(1, nv + 1)), [nv]):
+                    want = {tuple((a >> (v - 1)) & 1 for v in pr) for a in bm}
+                    ms = list(vsat.iter_models_proj(f, nv, pr))
+                    if not all(vsat.check_model(f, m) and len(m) == nv for m in ms):
+                        print('vsat self-test FAILED (projected enumeration yields non-model)', f, pr)
+                        return 1
+                    got = [tuple(1 if m[v - 1] > 0 else 0 for v in pr) for m in ms]
+                    if len(got) != len(set(got)) or set(got) != want:
+                        print('vsat self-test FAILED (projected enumeration)', f, pr, got, want)
                         return 1
     # pigeonhole 4 into 3 (UNSAT with real search)
     def ph(p, h):
